@@ -467,6 +467,15 @@ pub fn cmd_replay(path: &Path) -> i32 {
             return 2;
         }
     };
+    let engine = serde_json::from_str::<serde_json::Value>(&text)
+        .ok()
+        .and_then(|v| v.get("engine").and_then(|e| e.as_str()).map(|s| s.to_string()))
+        .unwrap_or_default();
+    if !matches!(engine.as_str(), "seqsim" | "crashsim" | "faultsim") {
+        let code = crate::replay_other(&engine, &text, path);
+        util::cleanup_scratch();
+        return code;
+    }
     let replay: Replay = match serde_json::from_str(&text) {
         Ok(r) => r,
         Err(e) => {
